@@ -49,6 +49,7 @@ enum {
   C_PAGES_LE,      /* a = mark index: the owner's heap must not hold more pages now than at that mark */
   C_WAIT_FREE_DONE,/* like C_WAIT_FREED, but waits until the consumer's mi_free calls have returned */
   C_WAIT_FREED,    /* a = first slot, b = count: wait (yielding) until these slots have been released by their consumer */
+  C_EXPECT_UNMAPPED, /* a = slot (released): the memory that held it must have been returned to the OS by now (a block with a mapping of its own) */
   C_FILL_PAGE,     /* a = size (small class), b = first slot, c = slots to register, d = bulk index: allocate until the page of the first block has
                       handed out its last block; the first c blocks go into slots, the rest are only kept (released at tear-down) */
 };
@@ -195,6 +196,7 @@ static int exec_ops(const cop_t* ops, int tid, int explored) {
         }
         break;
       }
+      case C_EXPECT_UNMAPPED: { VF_INC(checks); if (!g_race && g_slots[o->a].p != NULL && !LIVE(o->a) && vf_os_accessible(g_slots[o->a].p, 1)) { SVIOL("abandoned-segment-not-released", "thread %d: the block in slot %ld (own OS mapping, owner terminated) was freed and a forced collect ran, but its memory is still mapped", tid, o->a); return -1; } break; }
       case C_TICK: vf_os.clock_ms += o->a; break;
       case C_SUBPROC: { mi_subproc_id_t sp = mi_subproc_new(); mi_subproc_add_current_thread(sp); break; }
       case C_SUBPROC_JOIN: { if (g_sp[o->a] == NULL) g_sp[o->a] = mi_subproc_new(); mi_subproc_add_current_thread(g_sp[o->a]); break; }   /* several threads share sub-process number a */
@@ -394,6 +396,15 @@ static const cprog_t progs[] = {
     .setup = { { { C_INIT } }, { { C_INIT } }, { { C_FILL, S8, 0, 8 }, { C_THREAD_DONE } } },
     .run   = { { { C_FREE, 7 }, { C_FILL, S8, 10, 9 }, { C_PAGES_MARK, 0 }, { C_WAIT_FREE_DONE, 0, 3 }, { C_GENERIC99 }, { C_FILL, S8, 20, 3 }, { C_PAGES_LE, 0, 3 } },
                { { C_WAIT_LIVE, 18 }, { C_FREE_RANGE_WAIT, 0, 3 } }, { { C_END } } } },
+  /* R5 (reclaim-on-free): a page of the exiting thread becomes empty only during its exit (its blocks were freed by another thread
+     just before) while the segment survives through another live block; the adopting thread (which owns no other segment) builds a
+     new page in the recycled slice, fills it and a second page, another thread frees three blocks of the first: they must be
+     re-usable without a new page (the recycled slice must not inherit any delayed-free state) */
+  { .name = "R5", .nthreads = 3, .quiescence = 0,
+    .setup = { { { C_END } }, { { C_INIT } }, { { C_FILL, S8, 0, 2 }, { C_MALLOC, 64, 5 }, { C_MALLOC, 64, 6 } } },
+    .run   = { { { C_WAIT_FLAG, 1 }, { C_FREE, 6 }, { C_FILL, S8, 10, 16 }, { C_PAGES_MARK, 0 }, { C_SIGNAL, 2 }, { C_WAIT_FREE_DONE, 10, 3 }, { C_GENERIC99 }, { C_FILL, S8, 30, 3 }, { C_PAGES_LE, 0, 3 } },
+               { { C_FREE_WAIT, 0 }, { C_FREE_WAIT, 1 }, { C_SIGNAL, 0 }, { C_WAIT_FLAG, 2 }, { C_FREE_RANGE_WAIT, 10, 3 } },
+               { { C_WAIT_FLAG, 0 }, { C_THREAD_DONE }, { C_SIGNAL, 1 } } } },
   /* R2: the same, but the frees start as soon as the adopted page is full, racing with the owner moving it to the full queue */
   { .name = "R2", .nthreads = 3, .quiescence = 0,
     .setup = { { { C_INIT } }, { { C_INIT } }, { { C_FILL, S8, 0, 8 }, { C_THREAD_DONE } } },
@@ -470,6 +481,12 @@ static const cprog_t progs[] = {
   { .name = "E7", .leakcheck = 1, .nthreads = 4, .quiescence = 0,
     .setup = { { { C_INIT } }, { { C_SUBPROC_JOIN, 0 }, { C_INIT } }, { { C_MALLOC, S8, 0 }, { C_THREAD_DONE } }, { { C_SUBPROC_JOIN, 0 }, { C_MALLOC, S8, 1 }, { C_THREAD_DONE } } },
     .run   = { { { C_WAIT_FLAG, 1 }, { C_FREE, 1 }, { C_SIGNAL, 0 }, { C_FREE, 0 } }, { { C_COLLECT, 0 }, { C_SIGNAL, 1 }, { C_WAIT_FLAG, 0 }, { C_COLLECT, 1 } }, { { C_END } }, { { C_END } } } },
+  /* E8 (run with a 32 MiB arena reserve): the exiting thread leaves a small block in an arena segment and a 40 MiB block in a segment
+     straight from the OS; the big one is freed by a second thread and, after that, a forced collect of a third (which first walks the arena's abandoned
+     segments, still holding the small block, and then the list of abandoned OS segments) has to release it */
+  { .name = "E8", .leakcheck = 1, .nthreads = 3, .quiescence = 0,
+    .setup = { { { C_INIT } }, { { C_INIT } }, { { C_MALLOC, S8, 0 }, { C_MALLOC, 40 * MiB, 1 }, { C_THREAD_DONE } } },
+    .run   = { { { C_WAIT_FLAG, 0 }, { C_COLLECT, 1 }, { C_EXPECT_UNMAPPED, 1 }, { C_FREE, 0 } }, { { C_FREE, 1 }, { C_SIGNAL, 0 } }, { { C_END } } } },
   /* E4: sub-processes: a thread of another sub-process allocates while a segment of the main one is abandoned */
   { .name = "E4", .leakcheck = 1, .nthreads = 3, .quiescence = 0,
     .setup = { { { C_INIT } }, { { C_MALLOC, S8, 0 }, { C_MALLOC, S8, 1 } }, { { C_SUBPROC }, { C_INIT } } },
